@@ -151,3 +151,69 @@ pub fn c02_q_generate_keypair() {
     }
     core::mem::forget(b);
 }
+
+/// Honest endpoints agree from the start: BOTH are created by the real `HandshakeState::new` (as
+/// `Builder::build` calls it) from consistent symbolic keys and prologue; their handshake hashes must be equal
+/// before the first message.
+pub fn init_agree(pat: Pat) {
+    use crate::stubs::*;
+    use snow::verif;
+    let pro: [u8; 2] = kani::any();
+    let si: [u8; 8] = kani::any();
+    let sr: [u8; 8] = kani::any();
+    let mut pi = [0u8; 8];
+    let mut pr = [0u8; 8];
+    crate::toy::dh_pub(4, &si, &mut pi);
+    crate::toy::dh_pub(4, &sr, &mut pr);
+    let arr = |p: &[u8; 8]| {
+        let mut a = [0u8; verif::MAXDHLEN];
+        let mut j = 0;
+        while j < 4 {
+            a[j] = p[j];
+            j += 1;
+        }
+        a
+    };
+    dh_set_priv(0, 4, &si);
+    dh_set_priv(2, 4, &sr);
+    let mk = |ini: bool| {
+        let need_s = pat.needs_local_static(ini);
+        let need_rs = pat.needs_remote_static(ini);
+        if ini {
+            verif::handshake_new(Box::new(SRng), Box::new(SCipher::<0>), Box::new(SHash::<8, 0>), Box::new(SDh::<4, 4, 0>), need_s, Box::new(SDh::<4, 4, 1>), false,
+                arr(&pr), need_rs, true, mk_params(NAME, pat, 0), &[None; 10], &pro, Box::new(SCipher::<1>), Box::new(SCipher::<2>))
+        } else {
+            verif::handshake_new(Box::new(SRng), Box::new(SCipher::<3>), Box::new(SHash::<8, 1>), Box::new(SDh::<4, 4, 2>), need_s, Box::new(SDh::<4, 4, 3>), false,
+                arr(&pi), need_rs, false, mk_params(NAME, pat, 0), &[None; 10], &pro, Box::new(SCipher::<4>), Box::new(SCipher::<5>))
+        }
+    };
+    let (i, r) = (mk(true), mk(false));
+    kani::cover!(i.is_ok() && r.is_ok(), "C02 init_agree reached");
+    assert!(i.is_ok() && r.is_ok(), "C02: consistent configuration refused");
+    if let (Ok(i), Ok(r)) = (i, r) {
+        let (hi, hr) = (i.get_handshake_hash(), r.get_handshake_hash());
+        let mut j = 0;
+        while j < 8 {
+            assert!(hi[j] == hr[j], "C02: honest endpoints start from different handshake hashes");
+            j += 1;
+        }
+        core::mem::forget(i);
+        core::mem::forget(r);
+    }
+}
+
+macro_rules! init_agree_harness {
+    ($name:ident, $pat:expr) => {
+        #[kani::proof]
+        #[kani::unwind(34)]
+        pub fn $name() {
+            init_agree($pat);
+        }
+    };
+}
+init_agree_harness!(c02_q_init_agree_kk, Pat::KK);
+init_agree_harness!(c02_q_init_agree_k, Pat::K);
+init_agree_harness!(c02_q_init_agree_nk, Pat::NK);
+init_agree_harness!(c02_t_init_agree_k1k1, Pat::K1K1);
+init_agree_harness!(c02_t_init_agree_kn, Pat::KN);
+init_agree_harness!(c02_t_init_agree_x, Pat::X);
